@@ -62,6 +62,26 @@ pub enum HostCall {
 }
 
 impl HostCall {
+    /// the same call with expression values taken relative to jump entry `j0`
+    pub fn rebase_expr(&self, j0: usize) -> HostCall {
+        let g = |v: &Option<Val>| v.as_ref().map(|x| x.rebase_expr(j0));
+        match self {
+            HostCall::Resolve { sym, answer, gave } => HostCall::Resolve { sym: *sym, answer: answer.clone(), gave: g(gave) },
+            HostCall::Apply { ext, arg, answer, gave } => HostCall::Apply { ext: *ext, arg: arg.rebase_expr(j0), answer: answer.clone(), gave: g(gave) },
+            HostCall::Defer { instr, lt, l, rt, r, laddr, raddr, answer, gave } => HostCall::Defer {
+                instr: instr.clone(),
+                lt: *lt,
+                l: l.rebase_expr(j0),
+                rt: *rt,
+                r: r.rebase_expr(j0),
+                laddr: *laddr,
+                raddr: *raddr,
+                answer: answer.clone(),
+                gave: g(gave),
+            },
+        }
+    }
+
     /// the part compared between twin worlds / with the reference evaluator (no addresses)
     pub fn structural(&self) -> String {
         match self {
